@@ -406,6 +406,13 @@ Proof.
   - eapply forallb_impl; [|eassumption]. intros x _ Hs. apply suite_clean. exact Hs.
 Qed.
 
+(* tree level with the text layer: _unserialize_report (parse (write (serialize_report_as_xml_tree report))) *)
+Theorem xml_tree_rt now r : xml_safeb r = true -> unique_keys r ->
+  bind (xml_norm (xml_save_report tc now r)) (xml_load_report tc) = Ok (with_saving (Some now) r).
+Proof.
+  intros Hs Hu. rewrite (clean_norm _ (report_clean now r Hs)). cbn [bind]. apply xml_report_rt; assumption.
+Qed.
+
 (* file level: save with the XML backend, load through reporting.loader *)
 Theorem xml_file_rt now r : xml_safeb r = true -> unique_keys r ->
   save_then_load tc BXml now r = Ok (with_saving (Some now) r).
